@@ -406,7 +406,59 @@ func c14Run(c *lib.Ctx, scaleDown bool) {
 	for i := 0; i < o2.workers; i++ {
 		y.cl.AddWorker()
 	}
-	y.waitAssigned(1)
+	// every worker of the new job is alive: a Deploy that fails means the operator cannot open its database from what
+	// the savepoint restored
+	stopWatch := make(chan struct{})
+	deployFailed := make(chan string, 1)
+	go func() {
+		for {
+			select {
+			case <-stopWatch:
+				return
+			case <-time.After(500 * time.Microsecond):
+			}
+			for _, d := range y.cl.Deploys() {
+				if d.Err != nil && !d.DeadNode {
+					select {
+					case deployFailed <- fmt.Sprintf("%s %s: %v", d.Kind, d.Node, d.Err):
+					default:
+					}
+					return
+				}
+			}
+		}
+	}()
+	assigned := make(chan struct{})
+	go func() {
+		defer func() { recover() }()
+		for {
+			n := 0
+			for _, a := range y.src.Assignments() {
+				if a.Splitter >= 1 {
+					n++
+				}
+			}
+			if n >= o.splits {
+				close(assigned)
+				return
+			}
+			select {
+			case <-stopWatch:
+				return
+			case <-time.After(300 * time.Microsecond):
+			}
+		}
+	}()
+	select {
+	case <-assigned:
+	case why := <-deployFailed:
+		close(stopWatch)
+		c.Fail("savepoint-restore-error", y.wit(), "the job started from savepoint %d cannot deploy: Deploy of %s (working storage was deleted; only the savepoint exists)", spID, why)
+	case <-time.After(cluster.Watchdog):
+		close(stopWatch)
+		c.Inconclusive("splits were not assigned within the watchdog after the restore from savepoint %d (job errors: %v; goroutines: %s)", spID, y.cl.JobErrors(), lib.BlockedSummary())
+	}
+	close(stopWatch)
 	// source positions: every split resumes from the position recorded in the savepoint's checkpoint
 	want := map[string]int{}
 	for _, a := range x.cl.SRAcks() {
